@@ -288,6 +288,17 @@ class Model:
         """cmd: dict with key 'verb' and verb specific fields"""
         return getattr(self, "do_" + cmd["verb"].lower())(cid, cmd)
 
+    # ---- CAP after registration: capability changes only, never an effect on the session's fate
+    def do_cap(self, cid, cmd):
+        e = Exp("CAP", ("C06", "C04", "C03"))
+        sub = cmd["sub"]
+        if sub == "REQ":
+            if cmd.get("caps") == ["multi-prefix"]:
+                self.conn[cid]["multi_prefix"] = True
+        e.shape = "cap:" + sub.lower()
+        e.cover.append(("cap", sub, tuple(cmd.get("caps") or ())))
+        return e
+
     # ---- JOIN
     def do_join(self, cid, cmd):
         e = Exp("JOIN", ("C07", "C16", "C04"))
@@ -296,6 +307,15 @@ class Model:
         if len(set(chans)) != len(chans):
             e.unspec_state = e.unspec_relays = e.unspec_replies = True
             e.shape = "join:dup"
+        for cn in chans:
+            c = self.chans.get(cn)
+            if cn in u.invited:
+                e.props.add("C09")  # an invitation grants one admission
+            if c is not None:
+                if c.ban or c.exc or c.invex:
+                    e.props.add("C14")
+                if c.key is not None or c.limit is not None or c.flags or c.ban:
+                    e.props.add("C08")  # an applied mode is enforced by JOIN from then on
         count = len(u.channels)
         decisions = []
         for i, cn in enumerate(chans):
@@ -475,6 +495,8 @@ class Model:
             e.cover.append(("topic", "outsider"))
             return e
         r = c.members[u.nick]
+        if "t" in c.flags:
+            e.props.add("C08")
         if "t" in c.flags and not is_halfop(r):
             e.need("482", p0=u.nick, p1=cn)
             e.shape = "topic:lowrank"
@@ -503,6 +525,8 @@ class Model:
             e.cover.append(("invite", "outsider"))
             return e
         r = c.members[u.nick]
+        if "i" in c.flags:
+            e.props.add("C08")
         if "i" in c.flags and "o" not in r:
             if is_op(r):
                 # founder / protected without the operator flag on +i: the statement says
@@ -799,6 +823,10 @@ class Model:
                     continue
                 member = u.nick in c.members
                 r = c.members.get(u.nick, set())
+                if c.flags & set("nms") or c.ban:
+                    e.props.add("C08")
+                if c.ban or c.exc:
+                    e.props.add("C14")
                 ext_ok = member or not ({"n", "s"} & c.flags)
                 ban_ok = not c.banned(u.source)
                 mod_ok = "m" not in c.flags or (member and has_voice(r))
